@@ -18,6 +18,7 @@ import (
 	"sort"
 	"sync"
 	"sync/atomic"
+	"syscall"
 	"time"
 )
 
@@ -280,20 +281,26 @@ func (c *Ctx) write() {
 	}
 }
 
-// watchdog fires only on a real unbounded loop: no Eval for stall seconds.
+// watchdog fires only on a real unbounded loop: no Eval while this process
+// consumed stall seconds of CPU time.  CPU time, not wall-clock time: a worker
+// that is starved by other load on the machine makes no progress either, but
+// it does not burn CPU, and must not be taken for a hang.  A wait that burns
+// no CPU (a sleep, a blocked channel operation outside the scheduler) is
+// caught by the wall-clock fallback of ten times the stall time.
 func (c *Ctx) watchdog(stall time.Duration) {
 	last := c.progress.Load()
 	lastChange := time.Now()
+	cpuAtChange := cpuTime()
 	for {
 		time.Sleep(2 * time.Second)
 		cur := c.progress.Load()
 		if cur != last {
-			last, lastChange = cur, time.Now()
+			last, lastChange, cpuAtChange = cur, time.Now(), cpuTime()
 
 			continue
 		}
 
-		if time.Since(lastChange) < stall {
+		if cpuTime()-cpuAtChange < stall && time.Since(lastChange) < 10*stall {
 			continue
 		}
 
@@ -301,8 +308,9 @@ func (c *Ctx) watchdog(stall time.Duration) {
 		c.mu.Lock()
 		c.res.ViolationCount++
 		c.res.Violations = append(c.res.Violations, Violation{
-			Key:    "hang/" + in,
-			What:   fmt.Sprintf("no progress for %s while evaluating %q", stall, in),
+			Key: "hang/" + in,
+			What: fmt.Sprintf("no progress while evaluating %q (%s of CPU time, %s of wall-clock time since the last completed evaluation)",
+				in, (cpuTime() - cpuAtChange).Round(time.Second), time.Since(lastChange).Round(time.Second)),
 			Replay: map[string]any{"hang": in},
 		})
 		c.res.Exhaustive = false
@@ -410,6 +418,16 @@ func Main(body func(c *Ctx)) {
 	}()
 
 	c.write()
+}
+
+// cpuTime is the CPU time (user + system) consumed by this process so far.
+func cpuTime() time.Duration {
+	var ru syscall.Rusage
+	if err := syscall.Getrusage(syscall.RUSAGE_SELF, &ru); err != nil {
+		return 0
+	}
+
+	return time.Duration(ru.Utime.Nano() + ru.Stime.Nano())
 }
 
 type engineError string
